@@ -44,7 +44,7 @@ def netns(cmd, cwd, timeout=3000):
 
 def base_commit():
     # the commit the patch was made against: try HEAD first, then the original snapshot
-    for rev in ("main", "945ad24"):
+    for rev in ([os.environ["CONFIRM_BASE"]] if os.environ.get("CONFIRM_BASE") else ["main", "945ad24"]):
         wt = "/var/tmp/confirm-%s-%s-probe" % (ID, X)
         sh("git -C /repo worktree remove --force %s" % wt)
         sh("git -C /repo worktree add --detach %s %s" % (wt, rev))
